@@ -87,6 +87,17 @@ inductive Arg
   | sv (s : Snap)            -- a `StateVal`
 deriving DecidableEq, Repr
 
+/-- repairs of `state.py` / `eval.py` that the model follows (deviation switches).  `current` is read off the working
+tree by the extractor on every run; `preFix` is the code as it was before the `fix:` commits (findings C16-F1/F3/F4). -/
+structure Fixes where
+  assignNone : Bool      -- `recurse_assign`: `State.set(name, "None" if val is None else val)` instead of `State.set(name, val)`
+  setattrDict : Bool     -- `State.setattr`: explicit attribute dictionary instead of `cls.set(name, **{attr: value})`
+  delPyAttr : Bool       -- `ast_delete`: `delattr(obj, attr)` when the head is a Python object (collapse checks the head)
+deriving DecidableEq, Repr
+
+def Fixes.current : Fixes := ⟨ASSIGN_NONE_AS_STRING, SETATTR_EXPLICIT_DICT, DELETE_CHECKS_HEAD && DELETE_DELATTR⟩
+def Fixes.preFix : Fixes := ⟨false, false, false⟩
+
 /-! ## `State.set` -/
 
 /-- `if isinstance(value, StateVal) and new_attributes is None: new_attributes = value.__dict__ minus virtual` -/
@@ -222,16 +233,22 @@ def stateDelete (st : Store) (parts : List String) : Store × Out :=
 
 def Val.toArg (v : Val) : Arg := if v.isNone then .none else .plain v
 
-/-- `State.setattr(name, value)`: `cls.set(f"{d}.{n}", **{attr: value})` – a keyword named like a positional
-parameter of `State.set` binds *that parameter* (or collides with an already bound one) -/
-def stateSetattr (env : Env) (st : Store) (parts : List String) (v : Val) : Store × Out :=
+/-- `State.setattr(name, value)`.
+After the fix: `attributes = hass.states.get(name).attributes.copy(); attributes[attr] = value;
+cls.set(name, new_attributes=attributes)`.
+Before: `cls.set(f"{d}.{n}", **{attr: value})` – a keyword named like a positional parameter of `State.set` binds
+*that parameter* (or collides with an already bound one). -/
+def stateSetattr (fx : Fixes) (_env : Env) (st : Store) (parts : List String) (v : Val) : Store × Out :=
   match parts with
   | [d, n, a] =>
-    if !stateExist env st [d, n] then (st, .exc "NameError")
-    else if !STATE_SET_PARAMS.contains a then (setCore st (d, n) .none Option.none [(a, v)], .unit)
-    else if a = "value" then (setCore st (d, n) v.toArg Option.none [], .unit)
-    else if a = "new_attributes" then (st, .unmodelled)       -- binds `new_attributes` to an arbitrary object
-    else (st, .exc "TypeError")                               -- `cls`, `var_name`: multiple values for argument
+    match aget (d, n) st with
+    | Option.none => (st, .exc "NameError")                   -- `if not cls.exist(f"{d}.{n}")`
+    | some r =>
+      if fx.setattrDict then (setCore st (d, n) .none (some (aset a v r.attrs)) [], .unit)
+      else if !STATE_SET_PARAMS.contains a then (setCore st (d, n) .none Option.none [(a, v)], .unit)
+      else if a = "value" then (setCore st (d, n) v.toArg Option.none [], .unit)
+      else if a = "new_attributes" then (st, .unmodelled)     -- binds `new_attributes` to an arbitrary object
+      else (st, .exc "TypeError")                             -- `cls`, `var_name`: multiple values for argument
   | _ => (st, .exc "NameError")
 
 /-! ## name resolution (`ast_name`, Load context) -/
@@ -294,28 +311,35 @@ inductive ArgRef
   | none | plain (v : Val) | snap (i : Nat)
 deriving DecidableEq, Repr
 
+/-- the string `"None"` as an assigned value -/
+def noneStr : Val := ⟨"\"None\"", "None"⟩
+
 /-- assignment `p0.p1… = v` (`ast_attribute` in Store context, then `recurse_assign`) -/
-def storeDotted (env : Env) (st : Store) (parts : List String) (v : Arg) : Store × Out :=
+def storeDotted (fx : Fixes) (env : Env) (st : Store) (parts : List String) (v : Arg) : Store × Out :=
   match parts with
   | [] => (st, .unmodelled)
   | [_] => (st, .unmodelled)
   | h :: _ =>
     if headDefined env st h then (st, .py "setattr")          -- `EvalAttrSet(obj, attr).setattr(val)`
-    else if parts.length - 1 = ASSIGN_DOTS_SET then stateSet st parts v Option.none []
+    else if parts.length - 1 = ASSIGN_DOTS_SET then
+      -- `State.set(var_name, "None" if val is None else val)` after the fix, `State.set(var_name, val)` before
+      stateSet st parts (if fx.assignNone && v == .none then .plain noneStr else v) Option.none []
     else if parts.length - 1 = ASSIGN_DOTS_SETATTR then
       match v with
-      | .none => stateSetattr env st parts Val.none
-      | .plain x => stateSetattr env st parts x
+      | .none => stateSetattr fx env st parts Val.none
+      | .plain x => stateSetattr fx env st parts x
       | .sv _ => (st, .unmodelled)
     else (st, .exc "NameError")
 
-/-- `del p0.p1…` (`ast_delete`, Attribute branch: `ast_attribute_collapse(check_undef=…)`, then `State.delete`) -/
-def delDotted (env : Env) (st : Store) (parts : List String) : Store × Out :=
+/-- `del p0.p1…` (`ast_delete`, Attribute branch).  After the fix `ast_attribute_collapse(arg1)` checks the head: a Python
+object gets `delattr(obj, attr)`, only an unbound head makes a state name for `State.delete`.  Before the fix the head
+was not checked (`check_undef=False`) and every dotted name went to `State.delete`. -/
+def delDotted (fx : Fixes) (env : Env) (st : Store) (parts : List String) : Store × Out :=
   match parts with
   | [] => (st, .unmodelled)
   | [_] => (st, .unmodelled)
   | h :: _ =>
-    if DELETE_CHECKS_HEAD && headDefined env st h then (st, .exc "NameError")
+    if fx.delPyAttr && headDefined env st h then (st, .py "delattr")
     else stateDelete st parts
 
 /-! ## operations issued by a script (and by the outside world) -/
@@ -355,19 +379,19 @@ def capture (ms : MState) (o : Out) : MState :=
 
 def withStore (ms : MState) (r : Store × Out) : MState × Out := ({ ms with store := r.1 }, r.2)
 
-def step (env : Env) (ms : MState) : Op → MState × Out
+def step (fx : Fixes) (env : Env) (ms : MState) : Op → MState × Out
   | .load parts => (capture ms (loadDotted env ms.store parts), loadDotted env ms.store parts)
   | .store parts v =>
     match resolveArg ms.snaps v with
-    | some a => withStore ms (storeDotted env ms.store parts a)
+    | some a => withStore ms (storeDotted fx env ms.store parts a)
     | Option.none => (ms, .unmodelled)
-  | .delStmt parts => withStore ms (delDotted env ms.store parts)
+  | .delStmt parts => withStore ms (delDotted fx env ms.store parts)
   | .get parts => (capture ms (stateGet env ms.store parts), stateGet env ms.store parts)
   | .set parts v na kw =>
     match resolveArg ms.snaps v with
     | some a => withStore ms (stateSet ms.store parts a na kw)
     | Option.none => (ms, .unmodelled)
-  | .setattr parts v => withStore ms (stateSetattr env ms.store parts v)
+  | .setattr parts v => withStore ms (stateSetattr fx env ms.store parts v)
   | .delete parts => withStore ms (stateDelete ms.store parts)
   | .exist parts => (ms, .bool (stateExist env ms.store parts))
   | .getattr parts => (ms, stateGetattr ms.store parts)
@@ -384,9 +408,9 @@ def step (env : Env) (ms : MState) : Op → MState × Out
   | .extRemove e => ({ ms with store := adel e ms.store }, .unit)
 
 /-- run an operation sequence, collecting the outputs -/
-def run (env : Env) : MState → List Op → MState × List Out
+def run (fx : Fixes) (env : Env) : MState → List Op → MState × List Out
   | ms, [] => (ms, [])
   | ms, op :: ops =>
-    ((run env (step env ms op).1 ops).1, (step env ms op).2 :: (run env (step env ms op).1 ops).2)
+    ((run fx env (step fx env ms op).1 ops).1, (step fx env ms op).2 :: (run fx env (step fx env ms op).1 ops).2)
 
 end PsModel.C16
